@@ -14,6 +14,19 @@ pub struct MdEntry {
     /// how the key is spelled when it is handed to `MetadataKey::from_bytes` (names are
     /// case-insensitive and stored lower-cased): 0 as is, 1 UPPER, 2 Capitalised-Words
     pub key_case: u8,
+    /// attached with a *replacing* API (`insert`, `OccupiedEntry::insert`): every earlier value
+    /// of the key is gone
+    pub replace: bool,
+    /// an earlier value of a key that a later replacing entry removed again (still attached in
+    /// its turn, never expected to arrive)
+    pub superseded: bool,
+}
+
+impl MdEntry {
+    /// expected to reach the peer
+    pub fn expected(&self) -> bool {
+        !self.reserved && !self.superseded
+    }
 }
 
 pub fn spell(key: &str, key_case: u8) -> String {
@@ -89,13 +102,20 @@ pub fn gen_md(sim: &Sim, max: u64, with_reserved: bool) -> Vec<MdEntry> {
             let prev = out[sim.draw(out.len() as u64) as usize].clone();
             if !prev.reserved {
                 let val = if prev.bin { sim.bytes(sim.range(0, 40) as usize) } else { ascii_value(sim) };
-                out.push(MdEntry { key: prev.key, bin: prev.bin, val, reserved: false, key_case: sim.weighted(&[6, 1, 1]) as u8 });
+                // entries that go through tonic's own map API may also *replace* what the key held
+                let replace = with_reserved && sim.chance(1, 4);
+                if replace {
+                    for e in out.iter_mut().filter(|e| e.key == prev.key && !e.reserved) {
+                        e.superseded = true;
+                    }
+                }
+                out.push(MdEntry { key: prev.key, bin: prev.bin, val, reserved: false, key_case: sim.weighted(&[6, 1, 1]) as u8, replace, superseded: false });
                 continue;
             }
         }
         if with_reserved && sim.chance(1, 6) {
             let key = sim.pick(&RESERVED).to_string();
-            out.push(MdEntry { key, bin: false, val: format!("{CANARY}-{i}").into_bytes(), reserved: true, key_case: 0 });
+            out.push(MdEntry { key, bin: false, val: format!("{CANARY}-{i}").into_bytes(), reserved: true, key_case: 0, replace: false, superseded: false });
             continue;
         }
         if sim.chance(2, 5) {
@@ -103,10 +123,10 @@ pub fn gen_md(sim: &Sim, max: u64, with_reserved: bool) -> Vec<MdEntry> {
             // every length mod 3, incl. 0; opaque bytes
             let len = sim.range(0, 40) as usize;
             let val = if len > 0 && sim.chance(1, 3) { (0..len).map(|_| sim.draw(256) as u8).collect() } else { sim.bytes(len) };
-            out.push(MdEntry { key, bin: true, val, reserved: false, key_case: sim.weighted(&[6, 1, 1]) as u8 });
+            out.push(MdEntry { key, bin: true, val, reserved: false, key_case: sim.weighted(&[6, 1, 1]) as u8, replace: false, superseded: false });
         } else {
             let key = if sim.chance(1, 2) { sim.pick(&KEY_POOL).to_string() } else { rand_key(sim) };
-            out.push(MdEntry { key, bin: false, val: ascii_value(sim), reserved: false, key_case: sim.weighted(&[6, 1, 1]) as u8 });
+            out.push(MdEntry { key, bin: false, val: ascii_value(sim), reserved: false, key_case: sim.weighted(&[6, 1, 1]) as u8, replace: false, superseded: false });
         }
     }
     out
@@ -135,6 +155,23 @@ pub fn apply_md(map: &mut MetadataMap, entries: &[MdEntry]) {
             // the entry API): all of them "attach" an entry
             let first = !map.contains_key(e.key.as_str());
             let v = BinaryMetadataValue::from_bytes(&e.val);
+            if e.replace {
+                // replace every value the key holds: `insert_bin`, or the entry API's `insert`
+                if e.val.len() % 2 == 0 {
+                    map.insert_bin(k, v);
+                } else {
+                    match map.entry_bin(k) {
+                        Ok(tonic::metadata::Entry::Occupied(mut slot)) => {
+                            slot.insert(v);
+                        }
+                        Ok(tonic::metadata::Entry::Vacant(slot)) => {
+                            slot.insert(v);
+                        }
+                        Err(_) => key_abort("C08/binary-key-rejected", format!("entry_bin({spelled:?}) refuses a valid binary key")),
+                    }
+                }
+                continue;
+            }
             match (e.val.len() + e.key.len()) % 3 {
                 1 if first => {
                     map.insert_bin(k, v);
@@ -170,6 +207,22 @@ pub fn apply_md(map: &mut MetadataMap, entries: &[MdEntry]) {
                 key_abort("C08/value-constructor-alters-value", format!("an ASCII metadata value built from {:?} holds {:?}", String::from_utf8_lossy(&e.val), String::from_utf8_lossy(v.as_bytes())));
             }
             let first = !map.contains_key(e.key.as_str());
+            if e.replace {
+                if e.val.len() % 2 == 0 {
+                    map.insert(k, v);
+                } else {
+                    match map.entry(k) {
+                        Ok(tonic::metadata::Entry::Occupied(mut slot)) => {
+                            slot.insert(v);
+                        }
+                        Ok(tonic::metadata::Entry::Vacant(slot)) => {
+                            slot.insert(v);
+                        }
+                        Err(_) => key_abort("C08/ascii-key-rejected", format!("entry({spelled:?}) refuses a valid ASCII key")),
+                    }
+                }
+                continue;
+            }
             match (e.val.len() + e.key.len()) % 3 {
                 1 if first => {
                     map.insert(k, v);
@@ -192,7 +245,7 @@ pub fn apply_md(map: &mut MetadataMap, entries: &[MdEntry]) {
 pub fn md_summary(entries: &[MdEntry]) -> String {
     let mut s = String::from("{");
     for e in entries {
-        s.push_str(&format!("{}{}={} ", e.key, if e.reserved { "(reserved)" } else { "" }, if e.bin { format!("bin[{}]", e.val.len()) } else { String::from_utf8_lossy(&e.val).into_owned() }));
+        s.push_str(&format!("{}{}={} ", e.key, if e.reserved { "(reserved)" } else if e.superseded { "(replaced later)" } else if e.replace { "(replaces)" } else { "" }, if e.bin { format!("bin[{}]", e.val.len()) } else { String::from_utf8_lossy(&e.val).into_owned() }));
     }
     s.push('}');
     s
@@ -203,13 +256,13 @@ pub fn md_summary(entries: &[MdEntry]) -> String {
 /// classify entries by the key suffix.
 pub fn check_md_received(sim: &Sim, who: &str, expected: &[MdEntry], got: &MetadataMap) {
     let mut keys: Vec<(&str, bool)> = vec![];
-    for e in expected.iter().filter(|e| !e.reserved) {
+    for e in expected.iter().filter(|e| e.expected()) {
         if !keys.contains(&(e.key.as_str(), e.bin)) {
             keys.push((e.key.as_str(), e.bin));
         }
     }
     for (key, bin) in keys {
-        let want: Vec<&Vec<u8>> = expected.iter().filter(|e| !e.reserved && e.key == key).map(|e| &e.val).collect();
+        let want: Vec<&Vec<u8>> = expected.iter().filter(|e| e.expected() && e.key == key).map(|e| &e.val).collect();
         if bin {
             let have: Vec<Result<Vec<u8>, ()>> = got.get_all_bin(key).iter().map(|v| v.to_bytes().map(|b| b.to_vec()).map_err(|_| ())).collect();
             let ok = have.len() == want.len() && have.iter().zip(want.iter()).all(|(h, w)| h.as_ref().ok() == Some(*w));
@@ -349,13 +402,13 @@ pub fn check_status_received(sim: &Sim, who: &str, want: &StatusSpec, got: &Stat
 /// was attached, if any.
 pub fn md_mismatch(expected: &[MdEntry], got: &MetadataMap) -> Option<String> {
     let mut keys: Vec<(&str, bool)> = vec![];
-    for e in expected.iter().filter(|e| !e.reserved) {
+    for e in expected.iter().filter(|e| e.expected()) {
         if !keys.contains(&(e.key.as_str(), e.bin)) {
             keys.push((e.key.as_str(), e.bin));
         }
     }
     for (key, bin) in keys {
-        let want: Vec<&Vec<u8>> = expected.iter().filter(|e| !e.reserved && e.key == key).map(|e| &e.val).collect();
+        let want: Vec<&Vec<u8>> = expected.iter().filter(|e| e.expected() && e.key == key).map(|e| &e.val).collect();
         let have: Vec<Option<Vec<u8>>> = if bin { got.get_all_bin(key).iter().map(|v| v.to_bytes().ok().map(|b| b.to_vec())).collect() } else { got.get_all(key).iter().map(|v| Some(v.as_bytes().to_vec())).collect() };
         if have.len() != want.len() || have.iter().zip(want.iter()).any(|(h, w)| h.as_ref() != Some(*w)) {
             return Some(format!("key {key:?}: attached {} value(s), received {}", want.len(), have.len()));
